@@ -20,7 +20,7 @@ INT = [0, 1, 2, 127, 128, 255, 256, 32767, 32768, 65535, 65536, 2**24 - 1, 2**24
 STR = ["", "a", "dc=x", "é", "☺", "\U0001F600", "\x00", "a" * 127, "a" * 128, "a" * 255, "a" * 256,
        # content a normalising / canonicalising decoder would alter: percent-escapes, case, surrounding and inner
        # whitespace, control characters, a backslash escape, a NUL in the middle, a BOM, a combining sequence
-       "z" * 300, "\u00e9" * 200, "ldap://h/ou=Sales%20Team??sub?(cn=100%25)", "%41%zz%", "MiXeD CaSe", "  lead and trail  ", "\t\r\n", "a\\2ab\\\\", "a\x00b", "\ufeffx", "e\u0301"]
+       "z" * 300, "\u00e9" * 200, "1.3.6.1.4.1.1466.20037", "1.2.840.113556.1.4.319", "ldap://h/ou=Sales%20Team??sub?(cn=100%25)", "%41%zz%", "MiXeD CaSe", "  lead and trail  ", "\t\r\n", "a\\2ab\\\\", "a\x00b", "\ufeffx", "e\u0301"]
 BYTES = [b"", b"\x00", b"a", b"\xff", b"\x80\x00", bytes(range(256)), b"x" * 127, b"x" * 128, b"x" * 255, b"x" * 256, b"\x00" * 300, b"*" * 40]
 STR_BIG = ["a" * 65535, "a" * 65536]
 BYTES_BIG = [b"x" * 65535, b"x" * 65536]
